@@ -4,7 +4,7 @@ Model: coq/Model/SearchSpace.v   Theorems: coq/Properties/C15.v
 Correspondence (evaluated inside Coq, `check_case`):
   * validation: the exception class and every attribute raised by the real SearchSpace._check_bounds /
     SearchSpace(...) equal, exactly, what `check_bounds_F` (the cascade over IEEE binary64, PrimFloat) returns;
-  * discretisation: len(param_grid[j]) equals ceil((u+1e-7-l)/p) computed in exact rationals (unless that quotient is
+  * discretisation: len(param_grid[j]) equals ceil((fl(u+1e-7)-l)/p) computed in exact rationals (unless that quotient is
     within the rounding slack of an integer: "borderline", then +-1 is accepted) and the elements equal l+i*p within
     the rounding envelope of numpy's arange; space_size is the product of the observed lengths; dims.
 Direct oracle (Python, on the implementation's observations, independent of the Coq model): the property statement.
@@ -28,7 +28,8 @@ CASE_T = "list (list float) * list float * obs"
 EPS = 0.0000001  # the constant of search_space.py:77
 EPSF = Fraction(EPS)
 LATTICE = [-2.0, -1.0, -1e-9, 0.0, 1e-9, 1.0, 1.0 + 2.0 ** -52, 2.0, 1e300]
-SPECIAL = [float("nan"), float("inf"), float("-inf"), -0.0]
+SPECIAL = [float("nan"), float("inf"), float("-inf"), -0.0,
+           5e-324, -5e-324, 2.2250738585072014e-308, 1.7976931348623157e308]  # round 4: subnormals, min normal, max finite
 MAX_POINTS = 1.0e6  # per parameter; larger grids are not constructed (validated through _check_bounds only)
 
 # documented classes: Coq constructor, attributes in constructor order with their kinds
@@ -74,31 +75,124 @@ def mk_case(bounds, prec, flavour="list", family="?", ragged="seq"):
 
 
 # ------------------------------------------------------------------------------------------- implementation side
+INT_DTYPES = {"int64": np.int64, "int32": np.int32, "int16": np.int16, "int8": np.int8, "uint8": np.uint8}
+NARROW_FLOATS = {"f32": np.float32, "f16": np.float16}
+# representations of the same numbers (round 4).  "list" and "ndarray" stay the most frequent ones.
+EXTRA_FLAVOURS = ["tuple", "mixed", "int64", "readonly", "strided", "fortran", "negstride", "npscalars", "zerod", "object",
+                  "f32", "int32", "f16", "list+ndarray", "ndarray+list", "int16", "uint8", "tuple+ndarray", "mixed+ndarray"]
+# flavours whose entries may be integers: an integer in a payload field is then the offending value itself
+INT_FLAVOURS = {"mixed", "mixed+ndarray", "intwrap"} | set(INT_DTYPES)
+
+
+def int_ok(v) -> bool:
+    """the float v can be handed over as an integer without changing anything the property looks at"""
+    return math.isfinite(v) and v == int(v) and abs(v) <= 2.0 ** 52 and not (v == 0 and math.copysign(1.0, v) < 0)
+
+
+def narrow_ok(b, p, dt) -> bool:
+    """every entry, every range u-l and every l+p is exactly representable in the narrow float type dt: the
+    implementation then computes with these scalars exactly what it computes with the same numbers in binary64
+    (numpy subtracts / adds two float32 scalars in float32: with an inexact l+p the step np.arange uses is the
+    float32-rounded one, a legitimate consequence of handing over single-precision data)"""
+    def rep(x):
+        if not math.isfinite(x):
+            return False
+        with np.errstate(all="ignore"):
+            y = float(dt(x))
+        return y == x
+    if not (all(rep(v) for r in b for v in r) and all(rep(v) for v in p)):
+        return False
+    if len(b) >= 2:
+        for l, u, pr in zip(b[0], b[1], p):
+            for x in (Fraction(u) - Fraction(l), Fraction(l) + Fraction(pr)):
+                f = float(x)
+                if Fraction(f) != x or not rep(f):
+                    return False
+    return True
+
+
+def int_array_ok(b, p, dt, allow_wrap=False):
+    info = np.iinfo(dt)
+    vals = [v for r in b for v in r]
+    if not vals or not all(int_ok(v) and info.min <= int(v) <= info.max for v in vals):
+        return False
+    if not allow_wrap and len(b) >= 2:
+        # the only arithmetic the cascade does on two entries is upper - lower (after lower < upper): keep it in range
+        for l, u in zip(b[0], b[1]):
+            if l < u and int(u) - int(l) > info.max:
+                return False
+    return True
+
+
 def build_inputs(case):
+    """(values of the bounds, values of the precisions, the two objects handed to the implementation, effective flavour)"""
     b = [[fx(h) for h in row] for row in case["bounds"]]
     p = [fx(h) for h in case["prec"]]
-    if case["flavour"] == "list":
-        return b, p, [list(r) for r in b], list(p)
+    fl = case["flavour"]
+    conv = lambda v: int(v) if int_ok(v) else v  # noqa: E731
+    if fl == "list":
+        return b, p, [list(r) for r in b], list(p), fl
+    if fl == "tuple":
+        return b, p, tuple(tuple(r) for r in b), tuple(p), fl
+    if fl == "mixed":          # what users write: [[0, 0.5], [1, 2]], [0.25, 1]
+        return b, p, [[conv(v) for v in r] for r in b], [conv(v) for v in p], fl
+    if fl == "mixed+ndarray":
+        return b, p, [[conv(v) for v in r] for r in b], np.array(p, dtype=np.float64), fl
+    if fl == "npscalars":
+        return b, p, [[np.float64(v) for v in r] for r in b], [np.float64(v) for v in p], fl
+    if fl == "zerod":
+        return b, p, [[np.array(v) for v in r] for r in b], [np.array(v) for v in p], fl
+    if fl == "list+ndarray":
+        return b, p, [list(r) for r in b], np.array(p, dtype=np.float64), fl
+    if fl == "tuple+ndarray":
+        return b, p, tuple(tuple(r) for r in b), np.array(p, dtype=np.float64), fl
     rect = len({len(r) for r in b}) <= 1
-    if case["flavour"] == "f32" and rect and all(float(np.float32(v)) == v for r in b for v in r) and all(float(np.float32(v)) == v for v in p):
-        # single-precision arrays holding exactly the same numbers (data read from a float32 file, a GPU pipeline, ...)
-        return b, p, np.array(b, dtype=np.float32).reshape(len(b), len(b[0]) if b else 0), np.array(p, dtype=np.float32)
-    if rect:
-        B = np.array(b, dtype=np.float64).reshape(len(b), len(b[0]) if b else 0)
-    elif case.get("ragged") == "obj":
-        B = np.empty(len(b), dtype=object)
-        for i, r in enumerate(b):
-            B[i] = np.array(r, dtype=np.float64)
-    else:
-        B = [np.array(r, dtype=np.float64) for r in b]
-    return b, p, B, np.array(p, dtype=np.float64)
+    if not rect:
+        if case.get("ragged") == "obj":
+            B = np.empty(len(b), dtype=object)
+            for i, r in enumerate(b):
+                B[i] = np.array(r, dtype=np.float64)
+            return b, p, B, np.array(p, dtype=np.float64), "ragged-object-array"
+        return b, p, [np.array(r, dtype=np.float64) for r in b], np.array(p, dtype=np.float64), "ragged-list-of-arrays"
+    n = len(b[0]) if b else 0
+    A = np.array(b, dtype=np.float64).reshape(len(b), n)
+    Pa = np.array(p, dtype=np.float64)
+    if fl in NARROW_FLOATS and narrow_ok(b, p, NARROW_FLOATS[fl]):
+        # narrow arrays holding exactly the same numbers (data read from a float32 file, a GPU pipeline, ...)
+        return b, p, A.astype(NARROW_FLOATS[fl]), Pa.astype(NARROW_FLOATS[fl]), fl
+    if fl in INT_DTYPES or fl == "intwrap":
+        dt = INT_DTYPES[case.get("int_dtype", fl)] if fl == "intwrap" else INT_DTYPES[fl]
+        if int_array_ok(b, p, dt, allow_wrap=(fl == "intwrap")):
+            info = np.iinfo(dt)
+            if p and all(int_ok(v) and info.min <= int(v) <= info.max for v in p):
+                return b, p, A.astype(dt), Pa.astype(dt), fl
+            return b, p, A.astype(dt), Pa, fl + "+float-precision"
+    if fl == "ndarray+list":
+        return b, p, A, list(p), fl
+    if fl == "readonly":
+        A.flags.writeable = False
+        Pa.flags.writeable = False
+        return b, p, A, Pa, fl
+    if fl == "strided":        # every other column of a wider table; the columns in between would be malformed
+        big = np.full((len(b), 2 * n), 7.25)
+        big[:, 0::2] = A
+        bigp = np.zeros(2 * len(p))
+        bigp[0::2] = Pa
+        return b, p, big[:, 0::2], bigp[0::2], fl
+    if fl == "fortran":        # column-major storage (a transposed (n, 2) table)
+        return b, p, np.asfortranarray(A), Pa, fl
+    if fl == "negstride":
+        return b, p, np.ascontiguousarray(A[:, ::-1])[:, ::-1], np.ascontiguousarray(Pa[::-1])[::-1], fl
+    if fl == "object":
+        return b, p, A.astype(object), Pa.astype(object), fl
+    return b, p, A, Pa, "ndarray"
 
 
 def safe_to_construct(b, p) -> bool:
     """False when SearchSpace(...) could try to allocate a huge grid (whatever _check_bounds says)."""
     if len(b) < 2:
         return True
-    total = 1.0
+    total = 0.0
     for l, u, pr in zip(b[0], b[1], p):
         if not (math.isfinite(l) and math.isfinite(u) and math.isfinite(pr)):
             return False
@@ -107,7 +201,9 @@ def safe_to_construct(b, p) -> bool:
         n = (u + EPS - l) / pr
         if not abs(n) <= MAX_POINTS:  # numpy refuses (ValueError) or allocates: either way not part of the property
             return False
-        total *= max(n, 1.0)
+        # what is allocated is the SUM of the grid lengths; the product (space_size) is a Python int of any size
+        # (round 4: the version of round 3 bounded the product, so that of the "big space" cases only 2^64 was built)
+        total += max(n, 1.0)
         if total > 4 * MAX_POINTS:
             return False
     return True
@@ -118,6 +214,8 @@ def exc_record(e):
 
     attrs = {}
     for k, v in vars(e).items():
+        if isinstance(v, np.ndarray) and v.ndim == 0:
+            v = v[()]  # a 0-d array entry is the scalar it holds
         if isinstance(v, (bool, np.bool_)):
             attrs[k] = ["other", repr(v)]
         elif isinstance(v, (int, np.integer)):
@@ -143,12 +241,114 @@ def sample_indices(n):
     return sorted(idx)
 
 
-def run_impl(case):
+def spec_values(spec):
+    return [[fx(h) for h in row] for row in spec["bounds"]], [fx(h) for h in spec["prec"]]
+
+
+def write_in_place(B, P, spec):
+    """the caller overwrites its own arrays / lists with another specification"""
+    b, p = spec_values(spec)
+    if isinstance(B, np.ndarray):
+        B[...] = np.array(b, dtype=np.float64).reshape(B.shape)
+    else:
+        B[:] = [list(r) for r in b]
+    if isinstance(P, np.ndarray):
+        P[...] = np.array(p, dtype=np.float64)
+    else:
+        P[:] = list(p)
+
+
+def scribble(B, P):
+    """the caller reuses its arrays / lists for something else after the construction; True if anything was changed"""
+    done = False
+    for X, val in ((B, 3.5), (P, -1.0)):
+        if isinstance(X, np.ndarray):
+            if X.dtype == object:
+                for i in range(len(X)):
+                    if isinstance(X[i], np.ndarray):
+                        X[i][...] = val
+                    else:
+                        X[i] = val
+                    done = True
+            elif X.flags.writeable and X.size:
+                X[...] = val
+                done = True
+        elif isinstance(X, list):
+            for i, r in enumerate(X):
+                if isinstance(r, list):
+                    r[:] = [val] * (len(r) + 1)
+                elif isinstance(r, np.ndarray) and r.ndim == 1 and r.flags.writeable:
+                    r[...] = val
+                else:
+                    X[i] = val
+            if X is P:
+                X.append(val)
+            done = True
+    return done
+
+
+class mem_cap:
+    """While the implementation runs, the address space of this process may grow by at most 400 MiB (2 GiB for the thread pool; the largest
+    specification constructed here needs 32 MB): an implementation that pairs the wrong entries (say -2, 2 and a
+    precision of 1e-9: 32 GB) gets a MemoryError, recorded like any other exception, instead of taking the machine
+    down.  The limit is lifted again before anything else (coqc, the oracle) runs."""
+
+    def __init__(self, extra=400 * 2 ** 20):
+        self.extra = extra   # (worker threads reserve address space for stacks and malloc arenas: the pool gets 2 GiB)
+
+    def __enter__(self):
+        import resource
+
+        self.res = resource
+        self.old = resource.getrlimit(resource.RLIMIT_AS)
+        try:
+            with open("/proc/self/statm") as f:
+                cur = int(f.read().split()[0]) * resource.getpagesize()
+            cap = cur + self.extra
+            if self.old[1] != resource.RLIM_INFINITY:
+                cap = min(cap, self.old[1])
+            resource.setrlimit(resource.RLIMIT_AS, (cap, self.old[1]))
+        except (OSError, ValueError):
+            self.old = None
+        return self
+
+    def __exit__(self, *a):
+        if self.old is not None:
+            self.res.setrlimit(self.res.RLIMIT_AS, self.old)
+        return False
+
+
+def grids_equal(ga, gb):
+    return len(ga) == len(gb) and all(
+        isinstance(x, np.ndarray) and isinstance(y, np.ndarray) and x.dtype == y.dtype and x.shape == y.shape
+        and x.tobytes() == y.tobytes() for x, y in zip(ga, gb))
+
+
+def run_impl(case, quiet_threads=False):
     """Run the real code on one specification; returns the observation (JSON-able but for '_grids')."""
+    import contextlib
+    import io
+    import re
+
     from black_it.search_space import SearchSpace
 
-    b, p, B, P = build_inputs(case)
-    obs = {"cb": None, "ctor": None, "constructed": False}
+    hist = case.get("history")
+    if hist:
+        # one pair of caller-owned objects lives through the whole sequence (earlier specifications, accepted or
+        # rejected, then this one written over them in place)
+        _, _, B, P, eff = build_inputs(dict(case, bounds=hist[0]["bounds"], prec=hist[0]["prec"]))
+        for h in hist:
+            write_in_place(B, P, h)
+            try:
+                SearchSpace(B, P, False)
+            except BaseException:  # noqa: BLE001
+                pass
+        write_in_place(B, P, case)
+        b, p = spec_values(case)
+    else:
+        b, p, B, P, eff = build_inputs(case)
+    verbose = bool(case.get("verbose", False)) and not quiet_threads
+    obs = {"cb": None, "ctor": None, "constructed": False, "effective_flavour": eff}
     try:
         SearchSpace._check_bounds(B, P)
         obs["cb"] = {"ok": True}
@@ -162,16 +362,27 @@ def run_impl(case):
         return repr(x)
 
     before = (snap(B), snap(P))
+    s = s0 = None
     if safe_to_construct(b, p):
+        out = io.StringIO()
         try:
-            if case["flavour"] != "list":
-                SearchSpace(B, P, False)          # the caller's arrays are reused for a second construction: the result below
-                                                  # must not depend on that (and the arrays must come back untouched)
-            s = SearchSpace(B, P, False)
+            with (contextlib.nullcontext() if quiet_threads else contextlib.redirect_stdout(out)), \
+                    (contextlib.nullcontext() if quiet_threads else mem_cap()):
+                s0 = SearchSpace(B, P, False)         # the caller's arrays are reused for a second construction: the result below
+                                                      # must not depend on that (and the arrays must come back untouched);
+                                                      # nothing of s0 is read until the caller has overwritten its arrays
+                s = SearchSpace(B, P, verbose)
         except BaseException as e:  # noqa: BLE001
             obs["ctor"] = exc_record(e)
+            s = None
         else:
-            grids = s.param_grid
+            with (contextlib.nullcontext() if quiet_threads else mem_cap()):
+                try:
+                    grids = s.param_grid
+                except BaseException as e:  # noqa: BLE001
+                    grids = None
+                    obs["ctor"] = exc_record(e)
+        if s is not None and grids is not None:
             ok_shape = isinstance(grids, list) and all(
                 isinstance(g, np.ndarray) and g.ndim == 1 and g.dtype == np.float64 for g in grids)
             obs["ctor"] = {"ok": True, "grid_types_ok": bool(ok_shape)}
@@ -181,8 +392,28 @@ def run_impl(case):
                 obs["samples"] = [[[i, hx(g[i])] for i in sample_indices(len(g))] for g in grids]
                 obs["space_size"] = s.space_size if type(s.space_size) is int else repr(s.space_size)
                 obs["dims"] = s.dims if type(s.dims) is int else repr(s.dims)
-                obs["_grids"] = grids
+                obs["_grids"] = [g.copy() for g in grids]
+                if verbose:
+                    m = re.search(r"space size:\s*(-?\d+)", out.getvalue())
+                    obs["printed_size"] = int(m.group(1)) if m else None
     obs["inputs_untouched"] = bool(before == (snap(B), snap(P)))
+    if obs["constructed"] and not quiet_threads:
+        # the caller goes on using its own arrays / lists for something else: the constructed object must not follow
+        if scribble(B, P):
+            try:
+              with mem_cap():
+                obs["stable_after_caller_reuse"] = bool(
+                    grids_equal(obs["_grids"], s.param_grid) and s.space_size == obs["space_size"] and s.dims == obs["dims"])
+            except BaseException:  # noqa: BLE001
+                obs["stable_after_caller_reuse"] = False
+    if obs["constructed"] and s0 is not None:
+        # the first object built from the same arrays, looked at only now
+        try:
+          with (contextlib.nullcontext() if quiet_threads else mem_cap()):
+            obs["same_as_first_construction"] = bool(
+                grids_equal(s0.param_grid, obs["_grids"]) and s0.space_size == obs["space_size"] and s0.dims == obs["dims"])
+        except BaseException:  # noqa: BLE001
+            obs["same_as_first_construction"] = False
     return obs
 
 
@@ -201,6 +432,8 @@ def emit_err(rec):
     args = []
     for f, kind in fields:
         k, v = rec["attrs"][f]
+        if kind == "float" and k == "int" and abs(v) <= 2 ** 53:
+            k, v = "float", float(v).hex()  # an integer entry reported as the offending value (same number)
         if k != kind:
             return "ObsOther"
         if kind == "int":
@@ -281,7 +514,7 @@ def is_borderline(l, u, pr):
     return d <= len_slack_abs(l, u) / abs(P)
 
 
-def oracle_grid(b, p, obs, stats):
+def oracle_grid(b, p, obs, stats, absorbed):
     fails = []
     grids = obs["_grids"]
     if obs["dims"] != len(p):
@@ -303,12 +536,17 @@ def oracle_grid(b, p, obs, stats):
         if n == 0:
             fails.append(f"grid: parameter {j} has an empty grid")
             continue
+        if not bool(np.isfinite(a).all()):
+            fails.append(f"grid: parameter {j} has non-finite elements")
+            continue
         if float(a[0]).hex() != float(l).hex() and not (a[0] == l):
             fails.append(f"grid: parameter {j} starts at {a[0]!r}, not at the lower bound {l!r}")
         i = np.arange(n, dtype=np.longdouble)
         ref = np.longdouble(l) + i * np.longdouble(pr)
         big = max(abs(l), abs(pr), abs(l + pr))
-        tol = (2 * i + 8) * 2 * np.longdouble(math.ulp(big)) + 8 * np.spacing(np.abs(a)).astype(np.longdouble)
+        sp = np.spacing(np.abs(a))
+        sp[~np.isfinite(sp)] = math.ulp(1.7976931348623157e308)  # (np.spacing of the largest double is inf)
+        tol = (2 * i + 8) * 2 * np.longdouble(math.ulp(big)) + 8 * sp.astype(np.longdouble)
         err = np.abs(a.astype(np.longdouble) - ref)
         badi = np.nonzero(err > tol)[0]
         if len(badi):
@@ -325,9 +563,36 @@ def oracle_grid(b, p, obs, stats):
             fails.append(f"grid: parameter {j} last element {float(a[-1])!r} is beyond upper + 1e-7")
         if not last + P >= stop - slack:
             fails.append(f"grid: parameter {j} stops early: {float(a[-1])!r} + precision is still below upper + 1e-7")
+        # the same end-point rule on indices, in exact rationals: lower + i*precision < upper + 1e-7 holds for exactly
+        # ceil((upper + 1e-7 - lower) / precision) indices (round 4: the two clauses above carry the element envelope,
+        # which exceeds 1e-7 for bounds far from the origin; this one does not)
+        n_exact = max(0, math.ceil((stop - L) / P))
+        if n != n_exact:
+            if is_borderline(l, u, pr) and abs(n - n_exact) <= 1:
+                stats["grid_length_off_by_one_within_rounding_of_the_stop_value"] += 1
+            else:
+                fails.append(f"grid: parameter {j} has {n} points; lower + i*precision < upper + 1e-7 for exactly {n_exact} indices")
         if P <= U - L and n < 2 and not is_borderline(l, u, pr):
             fails.append(f"grid: parameter {j} has {n} point(s) although precision <= range")
         r0 = (U - L) / P
+        if (r0.denominator == 1 and r0 >= 1 and P > 4 * EPSF
+                and P >= 64 * max(ulp_ub(U), ulp_ub(L), ulp_ub(U - L))):
+            # the range is EXACTLY k steps (no rounding is involved in saying so) and the step is neither below the
+            # nudge nor near the resolution of the bounds: the statement says k+1 points, the last one the upper bound.
+            # (np.arange then returns k or k+1 points: the surviving nudge is in [0, 1e-7 + 2 ulp] < precision.)
+            k = int(r0)
+            stats["range_is_exactly_k_steps(judged without slack)"] += 1
+            if n != k + 1 or abs(last - U) > tol_last:
+                q = ((u + EPS) - l) / pr  # the expression of search_space.py:77 / np.arange's count, in binary64
+                if n == k and q == k and abs(last - (U - P)) <= tol_last:
+                    absorbed.append(f"grid-nudge-absorbed: parameter {j}: range = exactly {k} steps of {pr!r} but {n} points, "
+                                    f"the last one {float(a[-1])!r} instead of the upper bound {u!r} "
+                                    f"(((upper + 1e-7) - lower) / precision evaluates to exactly {k} in binary64)")
+                    stats["nudge_absorbed(upper bound dropped)"] += 1
+                else:
+                    fails.append(f"grid: parameter {j}: range = exactly {k} steps but {n} points ending at {float(a[-1])!r} "
+                                 f"(expected {k + 1} ending at the upper bound {u!r})")
+            continue
         k = round(r0)
         d = r0 - k
         if k >= 1 and abs(d) <= r0 / 2 ** 44:
@@ -342,14 +607,42 @@ def oracle_grid(b, p, obs, stats):
     return fails
 
 
+def attrs_match(observed, expected, ints_allowed):
+    """payload comparison: indices exact; values bit for bit (sign of zero included) - or, when the caller handed over
+    integers, that same integer"""
+    if set(observed) != set(expected):
+        return False
+    for k, (kind, val) in expected.items():
+        okind, oval = observed[k]
+        if kind == "int":
+            if okind != "int" or oval != val:
+                return False
+        elif okind == "float":
+            if oval != val:
+                return False
+        elif okind == "int" and ints_allowed and abs(oval) <= 2 ** 53:
+            if float(oval).hex() != val:
+                return False
+        else:
+            return False
+    return True
+
+
+def int_wrap_case(case, b, p):
+    """the specification is handed over as a signed integer array in which upper - lower does not fit the element type"""
+    return case["flavour"] == "intwrap" and len(b) == 2 and any(
+        l < u and int(u) - int(l) > np.iinfo(INT_DTYPES[case["int_dtype"]]).max for l, u in zip(b[0], b[1]))
+
+
 def oracle(case, obs, stats):
     """The property statement on the implementation's observations."""
     b = [[fx(h) for h in row] for row in case["bounds"]]
     p = [fx(h) for h in case["prec"]]
     viol = all_violations(b, p)
     stats[f"simultaneous_violations={min(len(viol), 4)}{'+' if len(viol) >= 4 else ''}"] += 1
-    fails = []
+    fails, absorbed = [], []
     cb, ctor = obs["cb"], obs["ctor"]
+    ints_allowed = case["flavour"] in INT_FLAVOURS
     if viol:
         _, cls, attrs = min(viol, key=lambda t: t[0])
         for who, rec in (("_check_bounds", cb), ("SearchSpace()", ctor)):
@@ -361,28 +654,47 @@ def oracle(case, obs, stats):
                 fails.append(f"class: {who} raised {rec['exc']} instead of {cls}")
             elif not rec["is_sse"]:
                 fails.append(f"class: {cls} is not a SearchSpaceError/ValueError")
-            elif rec["attrs"] != attrs:
+            elif not attrs_match(rec["attrs"], attrs, ints_allowed):
                 fails.append(f"payload: {who} {cls} carries {rec['attrs']} instead of {attrs}")
     else:
+        wrap = int_wrap_case(case, b, p)
+        tag = "rejected-int-wrap" if wrap else "rejected"
         if not cb["ok"]:
-            fails.append(f"rejected: _check_bounds raised {cb['exc']} on a well-formed specification")
+            fails.append(f"{tag}: _check_bounds raised {cb['exc']} on a well-formed specification")
         if ctor is not None:
             if not ctor["ok"]:
-                fails.append(f"rejected: SearchSpace() raised {ctor['exc']} on a well-formed specification")
+                fails.append(f"{tag}: SearchSpace() raised {ctor['exc']} on a well-formed specification")
             elif not obs["constructed"]:
                 fails.append("grid: param_grid is not a list of one-dimensional float64 arrays")
             elif type(obs["space_size"]) is not int or type(obs["dims"]) is not int:
                 fails.append("space_size: space_size/dims are not Python ints")
             else:
-                fails += oracle_grid(b, p, obs, stats)
+                fails += oracle_grid(b, p, obs, stats, absorbed)
+                if obs.get("printed_size", None) is not None:
+                    prod = 1
+                    for g in obs["_grids"]:
+                        prod *= len(g)
+                    if obs["printed_size"] != prod:
+                        fails.append(f"space_size: the size printed with verbose=True is {obs['printed_size']}, the "
+                                     f"product of the grid lengths is {prod}")
     if obs.get("inputs_untouched") is False:
         fails.append("inputs: the bounds / precision arrays given by the caller were modified")
-    return fails
+    if obs.get("same_as_first_construction") is False:
+        fails.append("reuse: another object constructed from the same caller-owned arrays, first looked at after the "
+                     "caller had overwritten them, has different grids / size / dims")
+    if obs.get("stable_after_caller_reuse") is False:
+        fails.append("reuse: param_grid / space_size / dims changed when the caller overwrote its own arrays "
+                     "after the construction")
+    # the known way the unchanged code drops the upper bound is reported last: any other failure decides the descriptor
+    return fails + absorbed
 
 
 # ------------------------------------------------------------------------------------------- generators
 def flav(k):
-    return "list" if k % 2 == 0 else "ndarray"
+    """two cases in three keep the two representations of rounds 1-3; the third cycles through the others"""
+    if k % 3 == 2:
+        return EXTRA_FLAVOURS[(k // 3) % len(EXTRA_FLAVOURS)]
+    return "list" if (k - k // 3) % 2 == 0 else "ndarray"
 
 
 def lattice_specs(nparams, triples=None):
@@ -570,11 +882,201 @@ def random_f32_case(rng, k):
 
 
 def big_space_cases(rng):
-    """Well-formed specifications whose number of grid points does not fit a machine integer."""
+    """Well-formed specifications whose number of grid points does not fit a machine integer, a float mantissa, or
+    sits exactly on a power of two (2^31, 2^32, 2^53, 2^63, 2^64)."""
     out = []
-    for dims, npts in ((10, 101), (64, 2), (13, 33), (21, 9), (9, 101)):
+    for dims, npts in ((10, 101), (64, 2), (13, 33), (21, 9), (9, 101), (4, 256), (7, 512), (8, 256), (9, 128), (63, 2),
+                       (53, 2), (31, 2), (32, 2), (2, 65536), (2, 46341), (3, 2097152 // 8), (17, 13), (40, 3)):
         lo = [float(rng.randint(-3, 3)) for _ in range(dims)]
-        out.append(mk_case([lo, [x + (npts - 1) * 0.5 for x in lo]], [0.5] * dims, flav(dims), f"grid:big-space-{npts}^{dims}"))
+        out.append(mk_case([lo, [x + (npts - 1) * 0.5 for x in lo]], [0.5] * dims, flav(dims + npts),
+                           f"grid:big-space-{npts}^{dims}"))
+    # unequal factors: 3 * 5 * 7 * ... (the product is not a power; a float product is inexact)
+    for dims in (12, 16, 23):
+        lo = [float(rng.randint(-3, 3)) for _ in range(dims)]
+        ns = [rng.randint(2, 60) | 1 for _ in range(dims)]
+        out.append(mk_case([lo, [x + (m - 1) * 0.25 for x, m in zip(lo, ns)]], [0.25] * dims, flav(dims),
+                           f"grid:big-space-mixed-{dims}"))
+    return out
+
+
+def many_param_case(rng, k):
+    """11-40 parameters; the malformed ones (0-3 of them) sit preferably at indices >= 10 and, when there are two, on
+    both sides of 10 (an index compared or sorted as text puts 10 before 2)."""
+    dims = rng.randint(11, 40)
+    ps = [rand_param(rng, "ok") for _ in range(dims)]
+    nbad = rng.choice([0, 1, 1, 2, 2, 2, 3])
+    idx = set()
+    if nbad >= 1:
+        idx.add(rng.randint(10, dims - 1))
+    if nbad >= 2:
+        idx.add(rng.randint(1, 9) if rng.below(3) else rng.randint(0, dims - 1))
+    if nbad >= 3:
+        idx.add(rng.randint(0, dims - 1))
+    bad_kinds = [x for x in KINDS if not x.startswith("ok") and x != "negative"]
+    for i in idx:
+        ps[i] = rand_param(rng, rng.choice(bad_kinds))
+    return mk_case([[t[0] for t in ps], [t[1] for t in ps]], [t[2] for t in ps], flav(k), "many_params")
+
+
+def small_int_param(rng, kind, top):
+    """integer-valued (l, u, p) of the requested kind; the precision is an integer or a dyadic fraction"""
+    l = float(rng.randint(-top, top - 2) if top > 100 else rng.randint(-top // 2, top // 2))
+    span = float(rng.randint(1, max(1, top // 4)))
+    frac = rng.choice([1.0, 1.0, 0.5, 0.25, 2.0, 3.0])
+    if kind == "ok":
+        u = l + span
+        p = min(frac, span) if rng.below(2) else float(rng.randint(1, int(span)))
+    elif kind == "ok_equal_range":
+        u, p = l + span, span
+    elif kind == "same":
+        u, p = l, 1.0
+    elif kind == "same_zero":
+        u, p = l, 0.0
+    elif kind == "inverted":
+        u, p = l - span, 1.0
+    elif kind == "inverted_zero":
+        u, p = l - span, 0.0
+    elif kind == "zero":
+        u, p = l + span, 0.0
+    elif kind == "too_large":
+        u = l + span
+        p = span + rng.choice([1.0, 0.5, 7.0])
+    else:
+        raise ValueError(kind)
+    return l, u, p
+
+
+INT_KINDS = ["ok", "ok", "ok", "ok", "ok_equal_range", "same", "same_zero", "inverted", "inverted_zero", "zero", "too_large"]
+INT_FAMILY_FLAVOURS = ["mixed", "int64", "int32", "int16", "int8", "uint8", "mixed+ndarray", "tuple", "object", "f32", "f16",
+                       "npscalars", "zerod"]
+
+
+def int_family_case(rng, k):
+    """what users write most often: integers (lists of Python ints, integer arrays of every width), sometimes with a
+    fractional precision; all kinds of violations"""
+    fl = INT_FAMILY_FLAVOURS[k % len(INT_FAMILY_FLAVOURS)]
+    top = {"int8": 60, "uint8": 100, "int16": 15000, "f16": 500}.get(fl, 100000 if rng.below(2) else 40)
+    dims = rng.randint(1, 4)
+    allok = rng.below(2) == 0
+    ps = []
+    for _ in range(dims):
+        l, u, p = small_int_param(rng, "ok" if allok else rng.choice(INT_KINDS), top)
+        if fl == "uint8":
+            sh = max(0.0, -min(l, u))
+            l, u = l + sh, u + sh
+        ps.append((l, u, p))
+    return mk_case([[t[0] for t in ps], [t[1] for t in ps]], [t[2] for t in ps], fl, "grid:integers")
+
+
+def narrow_float_case(rng, k):
+    """float32 / float16 arrays: dyadic numbers exactly representable in the narrow type, all kinds of violations"""
+    fl = "f16" if k % 3 == 0 else "f32"
+    dims = rng.randint(1, 3)
+    ps = []
+    for _ in range(dims):
+        j = rng.randint(0, 3 if fl == "f16" else 8)
+        sc = 2.0 ** -j
+        kind = rng.choice(INT_KINDS)
+        l, u, p = small_int_param(rng, kind, 60 if fl == "f16" else 4000)
+        ps.append((l * sc, u * sc, p * sc))
+    return mk_case([[t[0] for t in ps], [t[1] for t in ps]], [t[2] for t in ps], fl, "grid:narrow-floats")
+
+
+def int_wrap_cases():
+    """well-formed integer specifications whose range upper - lower does not fit the array's element type"""
+    out = []
+    for dt, l, u, p in (("int8", -100, 100, 10), ("int8", -128, 127, 5), ("int16", -30000, 30000, 1000),
+                        ("int32", -2_000_000_000, 2_000_000_000, 1_000_000), ("int32", -2 ** 31, 2 ** 31 - 1, 2 ** 20)):
+        c = mk_case([[float(l), 0.0], [float(u), 1.0]], [float(p), 1.0], "intwrap", "grid:int-range-wraps")
+        c["int_dtype"] = dt
+        out.append(c)
+    return out
+
+
+def far_param(rng, family):
+    """bounds far from the origin relative to their spread (1e5 ... 5e8: below the 2^29 where the 1e-7 nudge is still
+    more than an ulp) - or beyond 2^30, where the nudge is absorbed"""
+    if family == "far_multiple":          # exact multiple, everything exactly representable
+        j = rng.randint(0, 4)
+        p = rng.randint(1, 16) / 2.0 ** j
+        base = float(rng.randint(100000, 500000000)) * (-1.0 if rng.below(2) else 1.0)
+        k = rng.randint(1, 200)
+        l = base if rng.below(2) else base - k * p
+        return l, l + k * p, p
+    if family == "far_generic":
+        base = rng.uniform(1e5, 5e8) * (-1.0 if rng.below(2) else 1.0)
+        p = rng.uniform(0.01, 50.0)
+        rho = rng.uniform(1.0, 300.0)
+        return base, base + rho * p, p
+    if family == "far_near_multiple":     # k steps +- a little more / less than the nudge; |bounds| < 2^26: ulp < 1.5e-8
+        p = rng.randint(1, 16) / 4.0
+        base = float(rng.randint(100000, 60000000)) * (-1.0 if rng.below(2) else 1.0)
+        k = rng.randint(2, 200)
+        d = rng.choice([-3e-7, -1.5e-7, -5e-8, 5e-8, 1.5e-7, 3e-7, 1e-6])
+        return base, base + k * p + d, p
+    if family == "beyond_2^30_multiple":  # the nudge is absorbed: the unchanged code drops the upper bound here
+        e = rng.randint(30, 60)
+        p = float(rng.randint(1, 16)) * 2.0 ** rng.randint(max(0, e - 44), e - 5)
+        k = rng.randint(1, 60)
+        sgn = -1.0 if rng.below(2) else 1.0
+        kind = rng.below(3)
+        if kind == 0:      # both bounds huge
+            l = sgn * float(rng.randint(2 ** 10, 2 ** 11)) * 2.0 ** (e - 10)
+            return l, l + k * p, p
+        if kind == 1:      # range huge, from the origin
+            return 0.0, k * p * 2.0 ** 6, p * 2.0 ** 6
+        return -k * p * 2.0 ** 6, k * p * 2.0 ** 6, p * 2.0 ** 6   # symmetric
+    if family == "beyond_2^30_generic":
+        base = rng.uniform(2e9, 1e15) * (-1.0 if rng.below(2) else 1.0)
+        p = abs(base) * rng.uniform(1e-4, 1e-2)
+        return base, base + rng.uniform(1.2, 80.0) * p, p
+    if family == "signed_zero":
+        p = rng.randint(1, 8) / 4.0
+        k = rng.randint(1, 40)
+        return rng.choice([(-0.0, k * p, p), (-k * p, -0.0, p), (-k * p, 0.0, p), (0.0, k * p, p)])
+    raise ValueError(family)
+
+
+FAR_FAMILIES = ["far_multiple", "far_multiple", "far_generic", "far_near_multiple", "beyond_2^30_multiple",
+                "beyond_2^30_generic", "signed_zero"]
+
+
+def far_case(rng, k):
+    dims = rng.randint(1, 3)
+    fam = [rng.choice(FAR_FAMILIES) for _ in range(dims)]
+    ps = [far_param(rng, f) for f in fam]
+    return mk_case([[t[0] for t in ps], [t[1] for t in ps]], [t[2] for t in ps], flav(k), "grid:" + "+".join(fam))
+
+
+def scaled_validation_case(rng, k):
+    """a random specification multiplied by a power of two (exact: every comparison keeps its outcome) so that all the
+    entries are near the bottom or the top of the binary64 range"""
+    c = random_validation_case(rng, k)
+    sc = 2.0 ** rng.choice([-900, -700, -400, 900])  # (grids are built at the top scale only: big rationals in Coq)
+    b, p = spec_values(c)
+    return mk_case([[v * sc for v in r] for r in b], [v * sc for v in p], flav(k), "scaled_validation")
+
+
+def sequence_cases(rng, nseq):
+    """One pair of caller-owned arrays / lists lives through a sequence of constructions: rejected specifications
+    followed by accepted ones, the values overwritten in place in between (lists: also another number of parameters).
+    Each step is an ordinary case that carries the earlier steps as its history."""
+    out = []
+    for q in range(nseq):
+        fl = "ndarray" if q % 2 == 0 else "list"
+        dims = rng.randint(1, 3)
+        hist = []
+        for step in range(rng.randint(3, 5)):
+            if fl == "list" and step and rng.below(2):
+                dims = rng.randint(1, 4)
+            kind_pool = KINDS if step % 2 == 0 else ["ok", "ok_equal_range"]
+            ps = [grid_param(rng, "dyadic_multiple", 40) if rng.below(2) else rand_param(rng, rng.choice(kind_pool))
+                  for _ in range(dims)]
+            c = mk_case([[t[0] for t in ps], [t[1] for t in ps]], [t[2] for t in ps], fl, "sequence")
+            if hist:
+                c["history"] = [dict(bounds=h["bounds"], prec=h["prec"]) for h in hist]
+                out.append(c)
+            hist.append(c)
     return out
 
 
@@ -637,7 +1139,50 @@ def generate(chk):
     for k in range(60 if quick else 600):
         cases.append(random_f32_case(rng, k))
     cases += big_space_cases(rng)
+    # round 4 (generator sweep): representations, sizes, scales, sequences
+    for k in range(400 if quick else 6000):
+        cases.append(many_param_case(rng, k))
+    for k in range(900 if quick else 12000):
+        cases.append(int_family_case(rng, k))
+    for k in range(300 if quick else 4000):
+        cases.append(narrow_float_case(rng, k))
+    for k in range(600 if quick else 8000):
+        cases.append(far_case(rng, k))
+    for k in range(300 if quick else 4000):
+        cases.append(scaled_validation_case(rng, k))
+    cases += sequence_cases(rng, 60 if quick else 800)
+    cases += int_wrap_cases()
+    # verbose=True must not change anything (one dict case in four; lattice cases stay quiet)
+    nv = 0
+    for c in cases:
+        if isinstance(c, dict) and "verbose" not in c:
+            nv += 1
+            if nv % 4 == 0:
+                c["verbose"] = True
     return cases, nsig
+
+
+def concurrent_failures(rng, pool_cases, copies, workers=8):
+    """SearchSpace(...) / _check_bounds are functions of their arguments: the same specifications constructed from
+    several threads at once (short switch interval) must each give what the statement says"""
+    import sys
+    from concurrent.futures import ThreadPoolExecutor
+
+    jobs = [c for c in pool_cases for _ in range(copies)]
+    rng.shuffle(jobs)
+    old = sys.getswitchinterval()
+    sys.setswitchinterval(1e-5)
+    try:
+        with ThreadPoolExecutor(workers) as ex, mem_cap(2 * 2 ** 30):
+            results = list(ex.map(lambda c: run_impl(c, quiet_threads=True), jobs))
+    finally:
+        sys.setswitchinterval(old)
+    out, st = [], Counter()
+    for c, obs in zip(jobs, results):
+        f = [x for x in oracle(c, obs, st) if not x.startswith(("grid-nudge-absorbed", "rejected-int-wrap"))]
+        if f:
+            out.append((c, obs, f))
+    return out, len(jobs)
 
 
 # ------------------------------------------------------------------------------------------- driver
@@ -673,7 +1218,13 @@ def run(chk, replay=None):
             fails_by_case[i] = fails
         cls = classify(obs)
         stats[cls] += 1
-        stats["flavour=" + c["flavour"]] += 1
+        stats["flavour=" + obs["effective_flavour"]] += 1
+        if c.get("verbose"):
+            stats["verbose=True"] += 1
+        if c.get("history"):
+            stats["constructed_after_earlier_specifications_on_the_same_arrays"] += 1
+        if c["flavour"] != obs["effective_flavour"]:
+            stats["flavour_requested_but_not_representable(fell back)"] += 1
         stats["family=" + c["family"].split(":")[0]] += 1
         key = c0[1] if isinstance(c0, tuple) else json.dumps([c["bounds"], c["prec"]])
         keys.add(key)
@@ -694,18 +1245,34 @@ def run(chk, replay=None):
                                      shard=500 if chk.tier == "quick" else 4000, preamble=PREAMBLE)
     bad = set(bad)
     reported = 0
-    for i in sorted(set(fails_by_case) | bad):
+    SPECIFIC = {"grid-nudge-absorbed": {"kind": "oracle", "clause": "grid", "input": "upper-bound-nudge-absorbed"},
+                "rejected-int-wrap": {"kind": "oracle", "clause": "rejected", "input": "integer-range-wraps"}}
+
+    def clause_of(i):
+        return fails_by_case[i][0].split(":")[0][:40] if i in fails_by_case else ""
+
+    # cases failing in one of the two ways listed as findings are reported once each and never use up the report
+    # budget: anything else comes first
+    order = sorted(set(fails_by_case) | bad, key=lambda i: (clause_of(i) in SPECIFIC, i))
+    seen_specific = Counter()
+    for i in order:
         if reported >= 25:
             break
+        if clause_of(i) in SPECIFIC:
+            seen_specific[clause_of(i)] += 1
+            if seen_specific[clause_of(i)] > 2:
+                continue
         c = get_case(cases[i])
         obs = run_impl(c)
         pub = public(obs)
         if i in fails_by_case:
             fails = fails_by_case[i]
-            clause = fails[0].split(":")[0][:40]
-            chk.violation({"kind": "oracle", "clause": clause},
+            clause = clause_of(i)
+            chk.violation(SPECIFIC.get(clause, {"kind": "oracle", "clause": clause}),
                           {"failed": "oracle:" + fails[0], "all": fails, "case": c, "observed": pub,
                            "model_disagrees_too": i in bad})
+            if clause in SPECIFIC:
+                continue
         else:
             vals, _ = chk.coq_eval("C15_diag", IMPORTS, [f"let c := {lits[i]} in check_bounds_F (fst (fst c)) (snd (fst c))"],
                                    preamble=PREAMBLE)
@@ -716,6 +1283,23 @@ def run(chk, replay=None):
         reported += 1
     for e in errors:
         chk.violation({"kind": "correspondence", "name": "coqc"}, {"failed": "correspondence:coqc", "detail": e}, no_input=True)
+
+    # several threads at once
+    if replay:
+        pool = [get_case(c) for c in cases if isinstance(c, dict) and c.get("concurrent")]
+        copies = 64
+    else:
+        dicts = [c for c in cases if isinstance(c, dict) and not c.get("history") and c["flavour"] != "intwrap"
+                 and len(c["prec"]) <= 4 and c["family"] in ("random_validation", "grid:integers", "grid:narrow-floats")]
+        pool = dicts[:: max(1, len(dicts) // (250 if chk.tier == "quick" else 1500))]
+        copies = 6
+    conc_runs = 0
+    if pool:
+        conc, conc_runs = concurrent_failures(chk.rng, pool, copies)
+        for c, obs, fails in conc[:5]:
+            chk.violation({"kind": "oracle", "clause": "threads"},
+                          {"failed": "oracle:threads: constructed concurrently from 8 threads: " + fails[0], "all": fails,
+                           "case": dict(c, concurrent=True), "observed": public(obs)})
 
     # diagnostic (never gates): where does the exact-rational cascade decide differently from the binary64 one?
     diag = {}
@@ -747,12 +1331,20 @@ def run(chk, replay=None):
                 "triples of signature representatives + 40000 sampled; IEEE specials (nan, +-inf, -0.0) for 1 parameter; every "
                 "small shape (0-3 sub-lists of length 0-3, precision length 0-3, ragged arrays); random specifications "
                 "mixing the documented violations; random grids (dyadic/decimal multiples, generic, near-multiples at "
-                "+-1e-7, precision < 1e-7, negative precision, precision = range) with up to 1e5 points",
+                "+-1e-7, precision < 1e-7, negative precision, precision = range) with up to 1e5 points. Round 4: the same "
+                "numbers in 19 further representations (tuples, int/float mixes, integer arrays of 5 widths, float32/float16, "
+                "read-only, strided, Fortran-ordered, negative-stride, numpy scalars, 0-d arrays, object arrays, mixed "
+                "list/array), integer and narrow-float families with all violations, 11-40 parameters with the malformed "
+                "ones at indices >= 10, bounds far from the origin (1e5-5e8) and beyond 2^30, signed zeros, subnormals, "
+                "specifications scaled by 2^-900..2^900, space sizes at 2^31/2^32/2^53/2^63/2^64 and non-power products, "
+                "verbose=True, every construction done twice from the same caller-owned objects which are then overwritten "
+                "in place, sequences of rejected/accepted specifications on one pair of arrays, construction from 8 threads",
         "samples": samples,
         "traces_validated_against_impl": len(cases) - len(bad),
         "model_impl_disagreements": len(bad),
         "oracle_failures": len(fails_by_case),
         "borderline_grid_lengths(counted, +-1 accepted)": borderline,
+        "constructions_from_8_concurrent_threads": conc_runs,
         "lattice_signatures": nsig,
         "distribution": dict(sorted(stats.items())),
         "diagnostic_exact_vs_binary64": diag,
@@ -764,7 +1356,9 @@ def run(chk, replay=None):
     return chk.finish(
         cov,
         assumptions=[
-            "entries are Python floats / float64 (ints would be compared and subtracted exactly by the interpreter)",
+            "entries are numbers whose comparisons and difference are exact or binary64 operations: Python floats / float64 "
+            "(any container), Python ints and integer arrays up to 2^52 whose range fits the dtype, float32/float16 "
+            "arrays whose entries, ranges and first steps are exact in the narrow type",
             "CPython/numpy ==, > and - on float64 are IEEE-754 binary64 operations, as PrimFloat's are",
             "np.arange(l, s, p) has ceil((s-l)/p) elements l + i*((l+p)-l) (checked as an envelope: elements within "
             "(2i+8) ulp_ub(max(|l|,|p|,|l+p|)) + 4 ulp_ub(x_i) of l+i*p; length exact unless the quotient is within the "
